@@ -32,7 +32,7 @@ from torchtree.distributions.joint_distribution import JointDistributionModel  #
 MAXLEN = int(os.environ.get('C13_MAXLEN', '2'))
 SMALL_DOMAIN = ('p', 'q', 'pq')  # ids that become attribute names (Container members): concretised
 KEY_DOMAIN = ('', 'a', 'x', 'id', 'ignore')  # suffixes of `_`-comment keys: concretised (dict keys)
-BRACE_ALPHA = '{}:01'
+BRACE_ALPHA = '{:012'
 
 
 # ------------------------------------------------------------------ tiny registered classes
